@@ -112,6 +112,7 @@ class WrapSpec:
     foreach: List[Tuple[str, int]] = field(default_factory=list)          # (fragment, ordinal of the `for` inside it): rule R7 / R23
     scans: List[Tuple[str, int]] = field(default_factory=list)            # (fragment, ordinal of the `.position(` inside it): rule R13
     optmaps: List[Tuple[str, int]] = field(default_factory=list)          # (fragment, ordinal of the `.map(` inside it): rule R29
+    loopify: List[Tuple[str, str, int, str]] = field(default_factory=list)  # (fragment, method, ordinal, element type): rules R15..R19, R30
     ensure_err: str = ""                                                   # rule R28: anyhow ensure!(c, ..) -> if !(c) { return Err(<this>) }
     frag_loops: Dict[str, Dict[int, Dict[str, List[str]]]] = field(default_factory=dict)   # fragment -> loop ordinal -> entries
 
@@ -254,6 +255,12 @@ def parse(path: str) -> UnitSpec:
             elif head == "scan":
                 a, b = rest.split()
                 cur.scans.append((a, int(b)))
+            elif head == "loopify":
+                # loopify FRAG METHOD K [: TYPE]
+                m = re.match(r"^(\w+)\s+(\w+)\s+(\d+)\s*(?::\s*(.*))?$", rest)
+                if not m:
+                    raise SpecError(f"{path}:{ln}: bad wrap loopify entry")
+                cur.loopify.append((m.group(1), m.group(2), int(m.group(3)), (m.group(4) or "").strip()))
             elif head == "optmap":
                 a, b = rest.split()
                 cur.optmaps.append((a, int(b)))
